@@ -201,10 +201,10 @@ Proof.
 Qed.
 
 Theorem m_edges_exact : forall spec L R m s G s',
-  gg_m_edges spec L R m s = GGOk (G, s') -> spec = true \/ m <= L * R / 3 ->
+  gg_m_edges_gen spec L R m s = GGOk (G, s') -> spec = true \/ m <= L * R / 3 ->
   gg_nedges G = m /\ io_kind G = GioBipartite /\ io_n G = L /\ io_r G = R /\ 0 <= m <= L * R.
 Proof.
-  intros spec L R m s G s' H Hb. unfold gg_m_edges in H.
+  intros spec L R m s G s' H Hb. unfold gg_m_edges_gen in H.
   destruct ((L <? 1) || (R <? 1) || (m <? 0) || (L * R <? m)) eqn:Eg; [discriminate|].
   bind_inv H G0 H0. apply gg_lift_ok in H0. apply new_inv in H0 as (HL & HR & ->).
   destruct (L * R / 3 <? m) eqn:Ed.
@@ -223,7 +223,7 @@ Proof.
 Qed.
 
 Lemma m_edges_as_is_refuted : exists L R m s, 0 <= m <= L * R /\ 1 <= L /\ 1 <= R /\
-  gg_m_edges_as_is L R m s = GGRaise ETypeError.
+  gg_m_edges_as_found L R m s = GGRaise ETypeError.
 Proof. exists 3, 3, 8, []. vm_compute. repeat split; congruence. Qed.
 
 (* ---------- sorting ---------- *)
@@ -455,11 +455,11 @@ Lemma dag_negative_refused : forall h, h < 0 ->
 Proof. intros h Hh. unfold gg_dag_path, gg_dag_tree, gg_dag_pyramid. replace (h <? 0) with true by lia. auto. Qed.
 
 Lemma m_edges_spec_exact : forall L R m s G s',
-  gg_m_edges_spec L R m s = GGOk (G, s') ->
+  gg_m_edges L R m s = GGOk (G, s') ->
   gg_nedges G = m /\ io_kind G = GioBipartite /\ io_n G = L /\ io_r G = R /\ 0 <= m <= L * R.
 Proof. intros L R m s G s' H. exact (m_edges_exact true L R m s G s' H (or_introl eq_refl)). Qed.
 Lemma m_edges_sparse_exact : forall L R m s G s',
-  gg_m_edges_as_is L R m s = GGOk (G, s') -> m <= L * R / 3 ->
+  gg_m_edges_as_found L R m s = GGOk (G, s') -> m <= L * R / 3 ->
   gg_nedges G = m /\ io_kind G = GioBipartite /\ io_n G = L /\ io_r G = R /\ 0 <= m <= L * R.
 Proof. intros L R m s G s' H Hm. exact (m_edges_exact false L R m s G s' H (or_intror Hm)). Qed.
 
@@ -472,12 +472,12 @@ Proof.
   - intros [Hu [o [Ho ->]]]. exists u. split; [now apply range1_In|]. apply in_map_iff. eauto.
 Qed.
 
-Theorem shift_named : forall b N M pat G p', gg_shift b N M pat = GGOk (G, p') ->
+Theorem shift_named : forall b N M pat G p', gg_shift_gen b N M pat = GGOk (G, p') ->
   io_kind G = GioBipartite /\ io_n G = N /\ io_r G = M /\ 1 <= N /\ 1 <= M /\
   (forall u v, gio_has_edge G u v = true <-> 1 <= u <= N /\ exists o, In o pat /\ v = 1 + (u - 1 + o) mod M) /\
   p' = (if b then gio_sort Z.ltb pat else pat).
 Proof.
-  intros b N M pat G p' H. unfold gg_shift in H.
+  intros b N M pat G p' H. unfold gg_shift_gen in H.
   destruct ((N <? 1) || (M <? 1)) eqn:E; [discriminate|].
   bind_inv H G0 H0. apply gg_lift_ok in H0. apply new_inv in H0 as (_ & _ & ->).
   bind_inv H G1 H1. apply gg_lift_ok in H1. inversion H; subst. apply add_edges_inv in H1 as [_ ->].
@@ -489,42 +489,42 @@ Proof.
   - intros [Hu [o [Ho Hv]]]. left. split; [exact Hu|]. exists o. split; [now apply sort_In|exact Hv].
 Qed.
 
-Theorem shift_returns : forall b N M pat, 1 <= N -> 1 <= M -> exists G p', gg_shift b N M pat = GGOk (G, p').
+Theorem shift_returns : forall b N M pat, 1 <= N -> 1 <= M -> exists G p', gg_shift_gen b N M pat = GGOk (G, p').
 Proof.
-  intros b N M pat HN HM. unfold gg_shift. replace ((N <? 1) || (M <? 1)) with false by lia.
+  intros b N M pat HN HM. unfold gg_shift_gen. replace ((N <? 1) || (M <? 1)) with false by lia.
   rewrite new_ok by lia. cbn [gg_lift gg_bind]. rewrite add_edges_ok; [cbn [gg_lift gg_bind]; eauto|].
   apply Forall_forall. intros [u v] Hin. apply shift_edges_In in Hin as [Hu [o [_ ->]]].
   unfold edge_ok. cbn [io_kind io_n io_r fst snd]. pose proof (Z.mod_pos_bound (u - 1 + o) M). lia.
 Qed.
 
-Lemma shift_spec_keeps_pattern : forall N M pat G p', gg_shift_spec N M pat = GGOk (G, p') -> p' = pat.
+Lemma shift_spec_keeps_pattern : forall N M pat G p', gg_shift N M pat = GGOk (G, p') -> p' = pat.
 Proof. intros N M pat G p' H. apply shift_named in H. tauto. Qed.
-Lemma shift_as_is_changes_pattern : exists N M pat G p', gg_shift_as_is N M pat = GGOk (G, p') /\ p' <> pat.
+Lemma shift_as_is_changes_pattern : exists N M pat G p', gg_shift_as_found N M pat = GGOk (G, p') /\ p' <> pat.
 Proof. exists 4, 4, [3; 1]. eexists. eexists. split; [vm_compute; reflexivity|]. intros E. discriminate. Qed.
 
 (* ---------- guards imply the precondition of what is called next ---------- *)
-Lemma guard_gnd_refuted : exists n d, gg_guard_gnd [n; d] = true /\ ~ gg_pre_nx_random_regular d n.
+Lemma guard_gnd_refuted : exists n d, gg_guard_gnd_as_found [n; d] = true /\ ~ gg_pre_nx_random_regular d n.
 Proof. exists 4, 4. split; [reflexivity|]. unfold gg_pre_nx_random_regular. lia. Qed.
-Lemma guard_gnd_partial : forall args, gg_guard_gnd args = true ->
+Lemma guard_gnd_partial : forall args, gg_guard_gnd_as_found args = true ->
   exists n d, args = [n; d] /\ (d < n -> gg_pre_nx_random_regular d n).
 Proof.
   intros args H. destruct args as [|n [|d [|x t]]]; try discriminate. exists n, d. split; [reflexivity|].
-  unfold gg_guard_gnd in H. unfold gg_pre_nx_random_regular. lia.
+  unfold gg_guard_gnd_as_found in H. unfold gg_pre_nx_random_regular. lia.
 Qed.
-Lemma guard_gnd_spec_pre : forall args, gg_guard_gnd_spec args = true ->
+Lemma guard_gnd_spec_pre : forall args, gg_guard_gnd args = true ->
   exists n d, args = [n; d] /\ gg_pre_nx_random_regular d n.
 Proof.
   intros args H. destruct args as [|n [|d [|x t]]]; try discriminate. exists n, d. split; [reflexivity|].
-  unfold gg_guard_gnd_spec in H. unfold gg_pre_nx_random_regular. lia.
+  unfold gg_guard_gnd in H. unfold gg_pre_nx_random_regular. lia.
 Qed.
 Lemma guard_gnm_pre : forall args, gg_guard_gnm args = true -> exists n m, args = [n; m] /\ gg_pre_nx_gnm n m.
 Proof.
   intros args H. destruct args as [|n [|m [|x t]]]; try discriminate. exists n, m. split; [reflexivity|].
   unfold gg_guard_gnm in H. unfold gg_pre_nx_gnm. lia.
 Qed.
-Lemma guard_grid_pre : forall dims, gg_guard_grid dims = true -> gg_pre_nx_grid dims.
+Lemma guard_grid_pre : forall dims, gg_guard_grid_as_found dims = true -> gg_pre_nx_grid dims.
 Proof.
-  intros dims H. unfold gg_guard_grid in H. unfold gg_pre_nx_grid. apply Forall_forall. intros d Hd.
+  intros dims H. unfold gg_guard_grid_as_found in H. unfold gg_pre_nx_grid. apply Forall_forall. intros d Hd.
   rewrite forallb_forall in H. specialize (H d Hd). lia.
 Qed.
 Lemma guard_complete_simple_pre : forall args, gg_guard_complete_simple args = true ->
